@@ -447,7 +447,24 @@ class Body:
         return d
 
     # ------------------------------------------------------------------ expressions
-    def expr_operand(self, op, depth=0):
+    def _after(self, b):
+        """Blocks reachable from the successors of b (positions strictly after b's terminator)."""
+        m = self.__dict__.setdefault("_after_memo", {})
+        r = m.get(b)
+        if r is None:
+            r = self.reachable_from([d for d, _ in self.out_edges(b, True)], with_ydrop=True)
+            m[b] = r
+        return r
+
+    def _reaches(self, kind, bd, at):
+        """Can a definition of `kind` made in block bd be observed at block `at`?"""
+        if at is None:
+            return True
+        if kind == "assign" and bd == at:
+            return True
+        return at in self._after(bd)
+
+    def expr_operand(self, op, depth=0, at=None):
         if "c" in op:
             if "fn" in op:
                 return ("fnptr", op["fn"])
@@ -455,10 +472,10 @@ class Body:
         pl = op.get("cp") or op.get("mv")
         if pl is None:
             return ("unknown", "op")
-        return self.expr_place(pl["l"], norm_proj(pl.get("p")), depth)
+        return self.expr_place(pl["l"], norm_proj(pl.get("p")), depth, at)
 
-    def expr_place(self, local, suffix=(), depth=0):
-        key = (local, suffix)
+    def expr_place(self, local, suffix=(), depth=0, at=None):
+        key = (local, suffix, at)
         memo = self._expr_memo
         if key in memo:
             v = memo[key]
@@ -476,6 +493,8 @@ class Body:
             alts.append(self._arg_leaf(local, suffix))
         for df in defs:
             kind = df[0]
+            if not self._reaches(kind, df[1], at):
+                continue
             if kind == "assign":
                 _, b, i, dproj, r = df
                 if dproj:
@@ -528,25 +547,25 @@ class Body:
             a = r["a"]
             pl = a.get("cp") or a.get("mv")
             if pl is not None:
-                return self.expr_place(pl["l"], norm_proj(pl.get("p")) + suffix, depth)
-            e = self.expr_operand(a, depth)
+                return self.expr_place(pl["l"], norm_proj(pl.get("p")) + suffix, depth, b)
+            e = self.expr_operand(a, depth, b)
             return ("proj", suffix, e) if suffix else e
         if k in ("ref", "rawptr"):
             pl = r["p"]
-            return self.expr_place(pl["l"], norm_proj(pl.get("p")) + suffix, depth)
+            return self.expr_place(pl["l"], norm_proj(pl.get("p")) + suffix, depth, b)
         if k == "cast":
-            e = self.expr_operand(r["a"], depth)
+            e = self.expr_operand(r["a"], depth, b)
             e = ("cast", e, r.get("ty"), r.get("ck"))
             return ("proj", suffix, e) if suffix else e
         if k == "bin":
-            e = ("bin", r["op"], self.expr_operand(r["a"], depth), self.expr_operand(r["b"], depth))
+            e = ("bin", r["op"], self.expr_operand(r["a"], depth, b), self.expr_operand(r["b"], depth, b))
             return ("proj", suffix, e) if suffix else e
         if k == "un":
-            e = ("un", r["op"], self.expr_operand(r["a"], depth))
+            e = ("un", r["op"], self.expr_operand(r["a"], depth, b))
             return ("proj", suffix, e) if suffix else e
         if k == "discr":
             pl = r["p"]
-            return ("discr", self.expr_place(pl["l"], norm_proj(pl.get("p")), depth))
+            return ("discr", self.expr_place(pl["l"], norm_proj(pl.get("p")), depth, b))
         if k == "agg":
             ak = r["ak"]
             ops = r["ops"]
@@ -559,14 +578,14 @@ class Body:
                     fld = sfx[0]
                     names = r.get("fields") if ak == "adt" else [str(i) for i in range(len(ops))]
                     if names and fld in names and names.index(fld) < len(ops):
-                        return self._sub(self.expr_operand(ops[names.index(fld)], depth), tuple(sfx[1:]))
+                        return self._sub(self.expr_operand(ops[names.index(fld)], depth, b), tuple(sfx[1:]))
             if ak in ("closure", "coroutine", "coroutine_closure"):
-                return ("closure", r["def"], tuple(self.expr_operand(o, depth) for o in ops))
+                return ("closure", r["def"], tuple(self.expr_operand(o, depth, b) for o in ops))
             name = r.get("adt", ak)
-            e = ("agg", name, r.get("variant"), tuple(self.expr_operand(o, depth) for o in ops), tuple(r.get("fields") or ()))
+            e = ("agg", name, r.get("variant"), tuple(self.expr_operand(o, depth, b) for o in ops), tuple(r.get("fields") or ()))
             return ("proj", suffix, e) if suffix else e
         if k == "repeat":
-            return ("agg", "repeat", None, (self.expr_operand(r["a"], depth),), ())
+            return ("agg", "repeat", None, (self.expr_operand(r["a"], depth, b),), ())
         if k == "setdiscr":
             return ("const", r["vi"], None, "variant")
         return ("unknown", r.get("s", k))
@@ -590,16 +609,16 @@ class Body:
         return out
 
     def expr_call(self, t, b, depth):
-        args = tuple(self.expr_operand(a, depth) for a in t["args"])
+        args = tuple(self.expr_operand(a, depth, b) for a in t["args"])
         if "f" in t:
             return ("call", callee_of(t), t["f"], args, b)
         # indirect call through a fn pointer / closure value
-        return ("call", "<indirect>", "<indirect>", (self.expr_operand(t["fop"], depth),) + args, b)
+        return ("call", "<indirect>", "<indirect>", (self.expr_operand(t["fop"], depth, b),) + args, b)
 
     def switch_discr_expr(self, b):
         t = self.blocks[b]["t"]
         assert t["k"] == "switch"
-        return self.expr_operand(t["d"])
+        return self.expr_operand(t["d"], 0, b)
 
     def call_sites(self, pats):
         out = []
@@ -764,7 +783,7 @@ def closure_leaves(facts, cl, depth):
             continue
         t = body.blocks[b]["t"]
         if t["k"] == "switch":
-            inner |= leaves(body.expr_operand(t["d"]), facts, depth)
+            inner |= leaves(body.expr_operand(t["d"], 0, b), facts, depth)
         for i, s in enumerate(body.stmts(b)):
             if s["d"]["l"] == 0:
                 inner |= leaves(body.expr_rvalue(s["r"], (), b, 0), facts, depth)
